@@ -7,7 +7,12 @@ impl cbor_event::se::Serialize for Int {
         serializer: &'se mut Serializer<W>,
     ) -> cbor_event::Result<&'se mut Serializer<W>> {
         if self.0 < 0 {
-            serializer.write_negative_integer(self.0 as i64)
+            // not `write_negative_integer(self.0 as i64)`: it negates its i64 argument, which
+            // overflows for -2^63 and relies on wrap-around below that
+            serializer.write_negative_integer_sz(
+                self.0,
+                cbor_event::Sz::canonical((-self.0 - 1) as u64),
+            )
         } else {
             serializer.write_unsigned_integer(self.0 as u64)
         }
